@@ -261,8 +261,10 @@ struct Value {
     }
 
     Value &operator=(ObjectT &&obj) noexcept {
+        ObjectT n_obj{Memory::Move(obj)}; // obj can be a member of this value
+
         reset();
-        object_ = Memory::Move(obj);
+        object_ = Memory::Move(n_obj);
         setTypeToObject();
 
         return *this;
@@ -279,8 +281,10 @@ struct Value {
     }
 
     Value &operator=(ArrayT &&arr) noexcept {
+        ArrayT n_arr{Memory::Move(arr)}; // arr can be a member of this value
+
         reset();
-        array_ = Memory::Move(arr);
+        array_ = Memory::Move(n_arr);
         setTypeToArray();
 
         return *this;
@@ -297,8 +301,10 @@ struct Value {
     }
 
     Value &operator=(StringT &&str) noexcept {
+        StringT n_str{Memory::Move(str)}; // str can be a member of this value
+
         reset();
-        string_ = Memory::Move(str);
+        string_ = Memory::Move(n_str);
         setTypeToString();
 
         return *this;
@@ -349,8 +355,10 @@ struct Value {
     }
 
     Value &operator=(const Char_T *str) {
+        StringT n_str{str}; // str can point into a string this value holds
+
         reset();
-        string_ = StringT{str};
+        string_ = Memory::Move(n_str);
         setTypeToString();
 
         return *this;
